@@ -95,6 +95,7 @@ func runC09(c *Ctx) {
 	ruleDict(c, p, "C09.dict")
 	ruleCompressDst(c, p, "C09.dst")
 	ruleVectoredEquiv(c, p, "C09.vectored")
+	ruleExitGuards(c, p, "C09.guard")
 	c.R.Assumptions = append(c.R.Assumptions,
 		"(*proto.Writer).Flush writes synchronously (net.Buffers.WriteTo) and drops every reference afterwards (C09.writer.* = the C14 induction steps)",
 		"decided: order of encode / flush / callback / terminator on all paths; not decided: byte equality of each block with the snapshot taken inside the callback")
@@ -244,7 +245,7 @@ func ruleInputStream(c *Ctx, p *core.Program, roles *doRoles, prefix string) {
 
 	// --- C09.tail
 	rule = prefix + ".tail"
-	c.R.Rule(rule, "end-of-input with rows left sends them: from every io.EOF edge of a callback, the terminator is reachable only through an encodeBlock(Input) or through the false edge of a test `Rows() > 0` of the first input column")
+	c.R.Rule(rule, "end-of-input with rows left sends them: from every io.EOF edge of a callback, the terminator is reachable only through an encodeBlock(Input) or through the false edge of a test `Rows() > 0` of the first input column as it is after the callback returned (a column object fetched before the callback is stale when the callback swaps columns)")
 	rowsFalse := core.CondEdges(streamer, false, func(cond ssa.Value) (bool, bool) {
 		bo, ok := cond.(*ssa.BinOp)
 		if !ok {
@@ -279,10 +280,31 @@ func ruleInputStream(c *Ctx, p *core.Program, roles *doRoles, prefix string) {
 			c.R.Unk(rule, k, cfg, p.Pos(call.Pos()), "no errors.Is(err, io.EOF) test for this callback call")
 			continue
 		}
+		// the rows test must look at the column that is in q.Input NOW: a column object fetched
+		// before the callback ran is stale when the callback swaps columns in the Input slice
+		var fresh []core.Edge
+		for _, e := range rowsFalse {
+			ifi := e.B.Instrs[len(e.B.Instrs)-1].(*ssa.If)
+			bo := ifi.Cond.(*ssa.BinOp)
+			ok := true
+			for _, side := range []ssa.Value{bo.X, bo.Y} {
+				cl, isCall := side.(*ssa.Call)
+				if !isCall || !cl.Call.IsInvoke() {
+					continue
+				}
+				d, isInstr := cl.Call.Value.(ssa.Instruction)
+				if !isInstr || core.Dominates(d, call.(ssa.Instruction)) {
+					ok = false
+				}
+			}
+			if ok {
+				fresh = append(fresh, e)
+			}
+		}
 		bad := false
 		for _, e := range eof {
 			start := core.Point{B: e.B.Succs[e.Succ], I: -1}
-			w := core.ReachAvoiding(start, isB, isE, core.WithoutEdges(rowsFalse))
+			w := core.ReachAvoiding(start, isB, isE, core.WithoutEdges(fresh))
 			if len(w) > 0 {
 				bad = true
 				c.R.Bad(rule, k, cfg, p.Pos(w[0].At.Pos()), "on io.EOF the terminator is reachable without sending (or testing for) rows the callback left in the input columns: they are silently dropped", p.TrailString(w[0])...)
